@@ -522,6 +522,9 @@ pub enum AnyModel<T: Sc> {
     /// values of the inner model, derivatives replaced by fixed tables (hostile derivatives next to
     /// finite values, used by C08)
     BadDeriv(Box<AnyModel<T>>, Vec<DMatrix<T>>),
+    /// a model that follows the "compute everything in set_params" pattern without priming itself in
+    /// its constructor: eval / eval_partial_deriv fail until set_params has been called once
+    Lazy(Box<AnyModel<T>>, std::sync::atomic::AtomicBool),
 }
 
 impl<T: Sc> AnyModel<T> {
@@ -534,6 +537,7 @@ impl<T: Sc> AnyModel<T> {
             AnyModel::Table(_) => "table",
             AnyModel::RowScaled(_, _) => "rowscaled",
             AnyModel::BadDeriv(_, _) => "bad-derivatives",
+            AnyModel::Lazy(_, _) => "lazily primed",
         }
     }
 }
@@ -563,6 +567,7 @@ impl<T: Sc> SeparableNonlinearModel for AnyModel<T> {
             AnyModel::Table(m) => m.parameter_count(),
             AnyModel::RowScaled(m, _) => m.parameter_count(),
             AnyModel::BadDeriv(m, _) => m.parameter_count(),
+            AnyModel::Lazy(m, _) => m.parameter_count(),
         }
     }
     fn base_function_count(&self) -> usize {
@@ -574,6 +579,7 @@ impl<T: Sc> SeparableNonlinearModel for AnyModel<T> {
             AnyModel::Table(m) => m.base_function_count(),
             AnyModel::RowScaled(m, _) => m.base_function_count(),
             AnyModel::BadDeriv(m, _) => m.base_function_count(),
+            AnyModel::Lazy(m, _) => m.base_function_count(),
         }
     }
     fn output_len(&self) -> usize {
@@ -585,6 +591,7 @@ impl<T: Sc> SeparableNonlinearModel for AnyModel<T> {
             AnyModel::Table(m) => m.output_len(),
             AnyModel::RowScaled(m, _) => m.output_len(),
             AnyModel::BadDeriv(m, _) => m.output_len(),
+            AnyModel::Lazy(m, _) => m.output_len(),
         }
     }
     fn set_params(&mut self, p: OVector<T, Dyn>) -> Result<(), ZooError> {
@@ -596,6 +603,13 @@ impl<T: Sc> SeparableNonlinearModel for AnyModel<T> {
             AnyModel::Table(m) => m.set_params(p),
             AnyModel::RowScaled(m, _) => m.set_params(p),
             AnyModel::BadDeriv(m, _) => m.set_params(p),
+            AnyModel::Lazy(m, primed) => {
+                let r = m.set_params(p);
+                if r.is_ok() {
+                    primed.store(true, std::sync::atomic::Ordering::SeqCst);
+                }
+                r
+            }
         }
     }
     fn params(&self) -> OVector<T, Dyn> {
@@ -607,6 +621,7 @@ impl<T: Sc> SeparableNonlinearModel for AnyModel<T> {
             AnyModel::Table(m) => m.params(),
             AnyModel::RowScaled(m, _) => m.params(),
             AnyModel::BadDeriv(m, _) => m.params(),
+            AnyModel::Lazy(m, _) => m.params(),
         }
     }
     fn eval(&self) -> Result<OMatrix<T, Dyn, Dyn>, ZooError> {
@@ -618,6 +633,13 @@ impl<T: Sc> SeparableNonlinearModel for AnyModel<T> {
             AnyModel::Table(m) => m.eval(),
             AnyModel::RowScaled(m, w) => m.eval().map(|phi| scale_rows(phi, w)),
             AnyModel::BadDeriv(m, _) => m.eval(),
+            AnyModel::Lazy(m, primed) => {
+                if primed.load(std::sync::atomic::Ordering::SeqCst) {
+                    m.eval()
+                } else {
+                    Err(ZooError("set_params has not been called yet".into()))
+                }
+            }
         }
     }
     fn eval_partial_deriv(&self, k: usize) -> Result<OMatrix<T, Dyn, Dyn>, ZooError> {
@@ -629,6 +651,13 @@ impl<T: Sc> SeparableNonlinearModel for AnyModel<T> {
             AnyModel::Table(m) => m.eval_partial_deriv(k),
             AnyModel::RowScaled(m, w) => m.eval_partial_deriv(k).map(|d| scale_rows(d, w)),
             AnyModel::BadDeriv(_, d) => d.get(k).cloned().ok_or_else(|| ZooError("derivative index".into())),
+            AnyModel::Lazy(m, primed) => {
+                if primed.load(std::sync::atomic::Ordering::SeqCst) {
+                    m.eval_partial_deriv(k)
+                } else {
+                    Err(ZooError("set_params has not been called yet".into()))
+                }
+            }
         }
     }
 }
